@@ -246,8 +246,78 @@ def behaviour_oracle(ctx, pexpect, n):
                     % (src, fl, text, uni, ic, results), {'src': src, 'flags': fl, 'text': text, 'unicode': uni, 'ignorecase': ic,
                                                           'results': {str(k): repr(v) for k, v in results.items()}})
             break
+    # several patterns in ONE list, in mixed forms - the same source may appear twice with different effective flags (a plain
+    # string gets DOTALL and the object's ignorecase, a compiled pattern keeps its own): the answer is that of the `re` module
+    # asked directly, leftmost occurrence first, lowest index on ties
+    for it in range(n):
+        uni = rng.random() < 0.5
+        ic = rng.random() < 0.3
+        text = rng.choice(texts + ['BEGIN\nHello world\nEND', 'say hello'])
+        E_ = (lambda x: x) if uni else (lambda x: x.encode('ascii'))
+        entries, canon = [], []
+        base = rng.choice(['hello', 'a.b', 'BEGIN(.*)END', '[ab]+', 'A', 'b$'])
+        for k in range(rng.randint(1, 3)):
+            src = base if rng.random() < 0.6 else rng.choice(['hello', 'a.b', 'x', '\\d+', 'A'])
+            form = rng.choice(['string', 'compiled', 'compiled-other-type'])
+            fl = 0
+            for f in (re.I, re.S, re.M):
+                if rng.random() < 0.35:
+                    fl |= int(f)
+            if form == 'string':
+                entries.append(E_(src))
+                canon.append(re.compile(E_(src), re.S | (re.I if ic else 0)))
+            elif form == 'compiled':
+                entries.append(re.compile(E_(src), fl))
+                canon.append(re.compile(E_(src), fl))
+            else:
+                other = src.encode('ascii') if uni else src
+                entries.append(re.compile(other, fl))
+                canon.append(re.compile(E_(src), fl))
+        data = E_(text)
+        best = None
+        for i, cp in enumerate(canon):
+            m_ = cp.search(data)
+            if m_ is not None and (best is None or m_.start() < best[1]):
+                best = (i, m_.start(), m_.end())
+        want = ('ret', best[0], data[:best[1]], data[best[1]:best[2]]) if best else ('EOF', data)
+        for how in ('expect', 'expect_list'):
+            sp, enc = H.make_spawn(pexpect, uni, [text])
+            sp.ignorecase = ic
+            try:
+                if how == 'expect':
+                    idx = sp.expect(list(entries), timeout=5)
+                else:
+                    idx = sp.expect_list(sp.compile_pattern_list(list(entries)), timeout=5)
+                got = ('ret', idx, sp.before, sp.after)
+            except pexpect.EOF:
+                got = ('EOF', sp.before)
+            except Exception as e:
+                got = ('exc', repr(e))
+            tried += 1
+            if got != want:
+                ctx.hit('C20/mixed-list', '%s(%r) on %r (unicode=%s, ignorecase=%s): %r; the re module, asked pattern by pattern with the effective flags, gives %r'
+                        % (how, [e_ if isinstance(e_, (str, bytes)) else ('compiled', e_.pattern, e_.flags & MASK) for e_ in entries], text, uni, ic, got, want),
+                        {'entries': repr(entries), 'text': text, 'unicode': uni, 'ignorecase': ic})
+                return
+    # expect_exact: a single string - the empty one included - is the one-element list
+    for uni in (False, True):
+        for s_ in ('', 'b', 'abc', 'zz'):
+            outs = []
+            for aslist in (False, True):
+                sp, enc = H.make_spawn(pexpect, uni, ['abc'])
+                try:
+                    idx = sp.expect_exact([enc(s_)] if aslist else enc(s_), timeout=1)
+                    outs.append(('ret', idx, sp.before, sp.after, len(sp.script)))
+                except (pexpect.EOF, pexpect.TIMEOUT) as e:
+                    outs.append((type(e).__name__, sp.before, len(sp.script)))
+                except Exception as e:
+                    outs.append(('exc', repr(e)))
+            tried += 1
+            if outs[0] != outs[1]:
+                ctx.hit('C20/forms-differ', 'expect_exact(%r) gives %r, expect_exact([%r]) gives %r' % (enc(s_), outs[0], enc(s_), outs[1]), {'string': s_, 'unicode': uni})
+                return
     # invalid objects: TypeError and nothing consumed
-    for bad in [3, 2.5, [b'a', None], [['a']], object()]:
+    for bad in [3, 2.5, 0, 0.0, False, [b'a', None], [['a']], [0], object()]:
         for uni in (False, True):
             for meth in ('expect', 'expect_exact'):
                 sp, enc = H.make_spawn(pexpect, uni, ['abc'])
